@@ -40,9 +40,12 @@ Fixpoint compf (fw fz : bool) (rd : Z -> Z) (e : expr) (no_load : bool) : result
             | None => Crash 937
             | Some (td, th, len, base, m, _) =>
               let naive := cast_to_usize it iv in
+              (* two compare branches, as in the code: index type wider than usize -> compare in the index's own
+                 width on the untruncated value [iv] against the zero-extended length (same integer [len]);
+                 otherwise -> compare the usize-cast index *)
               let good := if fw && (64 <? ibits it)
                           then iv <? len                           (* icmp ult index, uextend(len) *)
-                          else naive <? len in
+                          else naive <? len in                     (* icmp ult naive_index, len *)
               let pre := t1 ++ td ++ marker mk ++ th in
               if good then
                 if is_zero_sized et then Ok (pre, Val None)        (* fz: checked, nothing accessed *)
